@@ -1,6 +1,7 @@
 import CashewsVerif.Lemmas.Decor.Early
 import CashewsVerif.Lemmas.Decor.SoftFail
 import CashewsVerif.Lemmas.Decor.HitStep
+import CashewsVerif.Lemmas.Decor.Overlap
 /-
 C14 — early / soft / failover / hit keep their staleness and reuse bounds.
 
@@ -21,6 +22,10 @@ over the history (an invariant of the step function).  `trace step init ops` lis
 the state before it, the operation and its answer; `final step init ops` is the state afterwards.
 A served value `(stamp, id)` carries the instant at which it was produced/stored, so `now - stamp` is
 its age.  TTLs are ticks of 1/8 s; `0 < ttl` excludes the "0 = no TTL" convention of the backend.
+
+early after the repair of D44: one recalculation of a key at a time.  A call that finds nothing stored while a recalculation
+of its key is in flight is answered `Res.joined id`: it executes nothing and waits; what it is handed is
+`Early.joinedAnswer` at the `done` operation that completes that recalculation (`early_joined_caller_answer`).
 
 Boundaries mirrored from the code (DESIGN §8, not judged): `early` serves without refreshing at exactly
 `early_ttl`; `soft` recomputes at exactly `soft_ttl`.
@@ -95,20 +100,22 @@ theorem early_young_served_without_executing (c : Early.Cfg) (httl : 0 < c.ttl) 
   exact Early.call_young hinv o d hc hy
 
 /-- **early: the inner deadline and the hard ttl of a result count from the instant its execution finished**, however
-long the execution took: after any history, a call that finds nothing stored and whose execution takes `d` ticks and
-succeeds stores `(now + d, id)` with inner deadline `now + d + early_ttl`, readable until `now + d + ttl`. -/
+long the execution took: after any history, a call that finds nothing stored (and no recalculation of the key in flight
+to wait for) and whose execution takes `d` ticks and succeeds stores `(now + d, id)` with inner deadline
+`now + d + early_ttl`, readable until `now + d + ttl`. -/
 theorem early_deadlines_count_from_completion (c : Early.Cfg) (httl : 0 < c.ttl) (ops : List DOp) (d : Nat) :
     let st := final (Early.step c) Early.init ops
-    cached3 st.t = none →
+    cached3 st.t = none → st.inflight = [] →
       cached3 (Early.call c st .ok d).1.t = some (st.t.now + d, st.nexec, st.t.now + d + c.early) ∧
       ∀ dt, cached3 (advance (Early.call c st .ok d).1.t dt) =
         if dt < c.ttl then some (st.t.now + d, st.nexec, st.t.now + d + c.early) else none := by
-  intro st hc
+  intro st hc hi
   have key : ∀ dt, cached3 (advance (Early.call c st .ok d).1.t dt) =
       if dt < c.ttl then some (st.t.now + d, st.nexec, st.t.now + d + c.early) else none := by
     intro dt
-    unfold Early.call
-    simp only [hc]
+    rw [Early.call_cold _ _ hc hi]
+    unfold Early.produce
+    simp only [Bool.false_eq_true, if_false]
     unfold cached3 TtlMap.find Early.save
     simp only [advance_m, advance_now, write_now]
     rw [write_m _ _ _ httl]
@@ -122,17 +129,77 @@ theorem early_deadlines_count_from_completion (c : Early.Cfg) (httl : 0 < c.ttl)
   have := key 0
   simpa [advance, httl] using this
 
-/-- **early: at most one refresh at a time, as long as a refresh completes within early_ttl.**  In every
-history in which, whenever a call is made, each refresh in flight was started less than `early_ttl`
-ago (`Early.Timely`), there is never more than one refresh in flight — before every operation and at
-the end.  (Calls keep being answered from the store meanwhile: next theorem.) -/
-theorem early_at_most_one_refresh (c : Early.Cfg) (hearly : 0 < c.early) (ops : List DOp)
-    (htimely : ∀ e ∈ trace (Early.step c) Early.init ops, Early.Timely c e.1 e.2.1) :
+/-- **early: at most one refresh at a time — unconditionally** (the repair of D44; the property asks for it only "as long
+as a refresh completes within early_ttl", and before the repair a recalculation that outlived its lock key, or the stored
+result, was joined by a second and a third one).  In every history — recalculations as slow as one likes, outliving the
+lock key and the stored result — there is never more than one recalculation of the key in flight, before every operation
+and at the end; and a call creates a refresh task only when none is in flight.  (Calls keep being answered from the
+store meanwhile, or wait for the recalculation: next theorems.) -/
+theorem early_at_most_one_refresh (c : Early.Cfg) (ops : List DOp) :
     (final (Early.step c) Early.init ops).inflight.length ≤ 1 ∧
-    ∀ e ∈ trace (Early.step c) Early.init ops, e.1.inflight.length ≤ 1 := by
-  have h := trace_inv (Early.step c) (Early.Single c) (Early.Timely c)
-    (fun s o hs ht => Early.single_step hearly s o hs ht) ops Early.init (Early.single_init c) htimely
-  exact ⟨Early.single_length h.1, fun e he => Early.single_length (h.2 e he).1⟩
+    ∀ e ∈ trace (Early.step c) Early.init ops, e.1.inflight.length ≤ 1 ∧
+      ∀ o d out, e.2.1 = .call o d → e.2.2 = .call out → out.started = true → e.1.inflight = [] := by
+  have h := trace_inv' (Early.step c) Early.Single (fun s o hs => Early.single_step s o hs) ops Early.init Early.single_init
+  refine ⟨h.1, fun e he => ⟨(h.2 e he).1, ?_⟩⟩
+  intro o d out hop hout hs
+  have hans := (h.2 e he).2
+  obtain ⟨s0, op, ans⟩ := e
+  simp only at hop hout hans ⊢
+  subst hop hout
+  simp only [Early.step, Ans.call.injEq] at hans
+  subst hans
+  exact Early.call_started_alone o d hs
+
+/-- **early, while a recalculation of the key is in flight** (after any history): a call that still finds a stored
+result is answered with it, immediately, and touches nothing — whatever its age beyond early_ttl and whether or not the
+lock key has expired meanwhile; a call that finds NOTHING stored (the result reached its ttl) does not execute the
+function a second time: it is parked on the running recalculation (`Res.joined` with that recalculation's ordinal),
+nothing is executed or started, the state is untouched. -/
+theorem early_while_recalculating (c : Early.Cfg) (ops : List DOp) (o : Outcome) (d : Nat) :
+    let st := final (Early.step c) Early.init ops
+    ∀ rid ts rest, st.inflight = (rid, ts) :: rest →
+      (∀ s i x, cached3 st.t = some (s, i, x) → Early.call c st o d = (st, ⟨.stored s i, false, false⟩)) ∧
+      (cached3 st.t = none → Early.call c st o d = (st, ⟨.joined rid, false, false⟩)) := by
+  intro st rid ts rest hi
+  exact ⟨fun s i x hc => Early.call_stale_inflight o d hc (by rw [hi]; simp), fun hc => Early.call_join o d hc hi⟩
+
+/-- **early: a caller parked on a recalculation is handed that recalculation's outcome when it completes** — and only
+then, and only such callers are parked: in every history a call answers `joined rid` only if it found nothing stored and
+the recalculation `rid` is in flight; and when the i-th recalculation in flight completes with outcome `o`, its waiters
+get `o.result now id` — its fresh result stamped with the instant it is handed out (age 0: younger than ttl), its
+exception or the exception of its store step; never a stored result. -/
+theorem early_joined_caller_answer (c : Early.Cfg) (ops : List DOp) :
+    (∀ e ∈ trace (Early.step c) Early.init ops, ∀ o d out rid, e.2.1 = .call o d → e.2.2 = .call out →
+      out.res = .joined rid → cached3 e.1.t = none ∧ (∃ ts rest, e.1.inflight = (rid, ts) :: rest) ∧
+        out.exec = false ∧ out.started = false ∧ (Early.step c e.1 e.2.1).1 = e.1) ∧
+    (∀ i o r, Early.joinedAnswer (final (Early.step c) Early.init ops) i o = some r →
+      (∃ id ts, (final (Early.step c) Early.init ops).inflight[i]? = some (id, ts) ∧
+        r = o.result (final (Early.step c) Early.init ops).t.now id ∧
+        (Early.done c (final (Early.step c) Early.init ops) i o).2 ≠ .noop) ∧
+      (∀ s j, r = .fresh s j → s = (final (Early.step c) Early.init ops).t.now) ∧ (∀ s j, r ≠ .stored s j)) := by
+  constructor
+  · intro e he o d out rid hop hout hr
+    have hans := ((trace_inv' (Early.step c) (fun _ => True) (fun _ _ _ => trivial) ops Early.init trivial).2 e he).2
+    obtain ⟨s0, op, ans⟩ := e
+    simp only at hop hout hans ⊢
+    subst hop hout
+    simp only [Early.step, Ans.call.injEq] at hans ⊢
+    subst hans
+    obtain ⟨h1, h2, h3⟩ := Early.call_joined o d hr
+    rw [h3]
+    exact ⟨h1, h2, rfl, rfl, rfl⟩
+  · intro i o r hj
+    unfold Early.joinedAnswer at hj
+    cases hi : (final (Early.step c) Early.init ops).inflight[i]? with
+    | none => simp [hi] at hj
+    | some p =>
+      obtain ⟨id, ts⟩ := p
+      simp [hi] at hj
+      subst hj
+      refine ⟨⟨id, ts, rfl, rfl, ?_⟩, ?_, ?_⟩
+      · unfold Early.done; simp only [hi]; cases o <;> simp
+      · intro s j h; cases o <;> simp [Outcome.result] at h <;> exact h.1.symm
+      · intro s j h; cases o <;> simp [Outcome.result] at h
 
 /- FULL STATEMENT (does not hold, see `early_foreground_failure_propagates`; recorded as known finding D19):
    theorem early_answers_from_store (c) (httl : 0 < c.ttl) (ops) (o) (d) :
@@ -380,11 +447,12 @@ theorem soft_returned_execution_answers (c : Soft.Cfg) (ops : List DOp) (o : Out
 /-- **early: whenever the function runs inside a call, the caller is handed what that execution produced** —
 its result (stamped with the instant it finished), its exception or the exception of its store step
 (`Outcome.result`) — both when nothing was stored and when the call waited for a foreground refresh (`started`;
-`background=False`, a stale result stored; a refresh that raises: D19); never a stored result.  After any history. -/
+`background=False`, a stale result stored; a refresh that raises: D19); never a stored result; and the function runs
+inside a call only when no recalculation of the key is in flight.  After any history. -/
 theorem early_execution_answers (c : Early.Cfg) (ops : List DOp) (o : Outcome) (d : Nat) :
     let st := final (Early.step c) Early.init ops
     (Early.call c st o d).2.exec = true →
-      (Early.call c st o d).2.res = o.result (st.t.now + d) st.nexec ∧
+      (Early.call c st o d).2.res = o.result (st.t.now + d) st.nexec ∧ st.inflight = [] ∧
       (((Early.call c st o d).2.started = false ∧ cached3 st.t = none) ∨
        ((Early.call c st o d).2.started = true ∧ c.bg = false ∧ ∃ s i x, cached3 st.t = some (s, i, x) ∧ x < st.t.now)) := by
   intro st hx
@@ -425,6 +493,99 @@ theorem hit_only_ok_stores (c : Hit.Cfg) (ops : List DOp) (o : Outcome) (d : Nat
   have h2 := Hit.done_main c st i o ho
   exact Hit.cached2_congr h2.2 h2.1
 
+/-! ## overlapping calls of one key (failover; soft without single-flight protection)
+
+Only the sentence about `hit` is restricted to sequential histories.  Here a call is not atomic: it begins, other calls
+begin or finish and time passes, and later its function body finishes (`Overlap.COp`: `begin`, `fin i o`, `adv`). -/
+
+/-- **failover, overlapping calls: the function is executed on every call, and a stored result is returned only to a
+call whose OWN execution raised a listed exception, and only younger than ttl at that instant.**  In every history of
+overlapping calls: every call that begins enters the function with an execution of its own (it is never answered
+without executing, never attached to another call's execution), whatever other calls are inside the function at that
+moment; and when the body of a pending call finishes with outcome `o`, that call is answered — a stored result only if
+`o` is a listed exception and the result (whoever stored it, possibly an overlapping call a moment ago) is younger than
+ttl now; a fresh result only if its own execution returned, stamped now. -/
+theorem failover_overlapping_calls (c : Fail.Cfg) (httl : 0 < c.ttl) (ops : List Overlap.COp) :
+    ∀ e ∈ trace (Overlap.failStep c) Overlap.init ops,
+      (e.2.1 = .begin → e.2.2 = .began e.1.next ∧
+        (Overlap.failStep c e.1 e.2.1).1.pending = e.1.pending ++ [e.1.next] ∧
+        (Overlap.failStep c e.1 e.2.1).1.next = e.1.next + 1) ∧
+      (∀ i o r, e.2.1 = .fin i o → e.2.2 = .answered r →
+        (∃ id, e.1.pending[i]? = some id ∧ ∀ s j, r = .fresh s j → j = id) ∧
+        (∀ s j, r = .stored s j → o = .listed ∧ s ≤ e.1.t.now ∧ e.1.t.now < s + c.ttl) ∧
+        (∀ s j, r = .fresh s j → s = e.1.t.now ∧ o.returns = true)) := by
+  intro e he
+  obtain ⟨hinv, hans⟩ := (trace_inv' (Overlap.failStep c) (fun s => KeyWf2 c.ttl s.t)
+    (fun s o h => Overlap.failStep_wf httl s o h) ops Overlap.init (wf2_init _)).2 e he
+  obtain ⟨s0, op, ans⟩ := e
+  simp only at hinv hans ⊢
+  subst hans
+  refine ⟨fun hop => ?_, fun i o r hop hr => ?_⟩
+  · subst hop; exact ⟨rfl, rfl, rfl⟩
+  · subst hop
+    simp only [Overlap.failStep, Overlap.finishWith] at hr
+    cases hp : s0.pending[i]? with
+    | none => simp [hp] at hr
+    | some id =>
+      simp [hp] at hr
+      subst hr
+      have h := Overlap.failFinish_res hinv id o
+      exact ⟨⟨id, rfl, fun s j hf => (h.2 s j hf).2.1⟩, h.1, fun s j hf => ⟨(h.2 s j hf).1, (h.2 s j hf).2.2⟩⟩
+
+/-- **soft (no single-flight protection), overlapping calls: never a value older than ttl, and a stale one only after the
+call's own recomputation raised a listed exception.**  In every history of overlapping calls: a call that begins is
+either answered at once with the stored result, which is then younger than soft_ttl (and than ttl), nothing being
+executed — or it enters the function with an execution of its own; and when the body of a pending call finishes with
+outcome `o`, a stored result is handed out only if `o` is a listed exception and the result that is in the store AT THAT
+INSTANT (possibly written by an overlapping call meanwhile — not the one this call read when it began) is younger than
+ttl; a fresh result only if its own execution returned, stamped now. -/
+theorem soft_overlapping_calls (c : Soft.Cfg) (httl : 0 < c.ttl) (ops : List Overlap.COp) :
+    ∀ e ∈ trace (Overlap.softStep c) Overlap.init ops,
+      (e.2.1 = .begin →
+        (e.2.2 = .began e.1.next ∧ (Overlap.softStep c e.1 e.2.1).1.pending = e.1.pending ++ [e.1.next] ∧
+          ∀ s j x, cached3 e.1.t = some (s, j, x) → s + c.soft ≤ e.1.t.now) ∨
+        (∃ s j, e.2.2 = .served (.stored s j) ∧ s ≤ e.1.t.now ∧ e.1.t.now < s + c.soft ∧ e.1.t.now < s + c.ttl ∧
+          (Overlap.softStep c e.1 e.2.1).1 = e.1)) ∧
+      (∀ i o r, e.2.1 = .fin i o → e.2.2 = .answered r →
+        (∃ id, e.1.pending[i]? = some id ∧ ∀ s j, r = .fresh s j → j = id) ∧
+        (∀ s j, r = .stored s j → o = .listed ∧ s ≤ e.1.t.now ∧ e.1.t.now < s + c.ttl) ∧
+        (∀ s j, r = .fresh s j → s = e.1.t.now ∧ o.returns = true)) := by
+  intro e he
+  obtain ⟨hinv, hans⟩ := (trace_inv' (Overlap.softStep c) (fun s => KeyWf3 c.ttl c.soft s.t)
+    (fun s o h => Overlap.softStep_wf httl s o h) ops Overlap.init (wf3_init _ _)).2 e he
+  obtain ⟨s0, op, ans⟩ := e
+  simp only at hinv hans ⊢
+  subst hans
+  refine ⟨fun hop => ?_, fun i o r hop hr => ?_⟩
+  · subst hop
+    simp only [Overlap.softStep]
+    cases hc : cached3 s0.t with
+    | none => exact Or.inl ⟨rfl, rfl, by simp⟩
+    | some p =>
+      obtain ⟨st, id, x⟩ := p
+      have hs := cached3_spec hinv hc
+      simp only []
+      by_cases hn : s0.t.now < x
+      · rw [if_pos hn]
+        exact Or.inr ⟨st, id, rfl, hs.2.1, by rw [← hs.1]; exact hn, hs.2.2.1, rfl⟩
+      · rw [if_neg hn]
+        refine Or.inl ⟨rfl, rfl, ?_⟩
+        intro s j x' h
+        simp at h
+        obtain ⟨h1, _, h3⟩ := h
+        subst h1 h3
+        rw [hs.1] at hn
+        omega
+  · subst hop
+    simp only [Overlap.softStep, Overlap.finishWith] at hr
+    cases hp : s0.pending[i]? with
+    | none => simp [hp] at hr
+    | some id =>
+      simp [hp] at hr
+      subst hr
+      have h := Overlap.softFinish_res hinv id o
+      exact ⟨⟨id, rfl, fun s j hf => (h.2 s j hf).2.1⟩, h.1, fun s j hf => ⟨(h.2 s j hf).1, (h.2 s j hf).2.2⟩⟩
+
 /-! ## Non-vacuity: the models do something, and the hypotheses are satisfiable by interesting histories -/
 
 /-- early, ttl 2 s, early_ttl ½ s, background on: store; 5/8 s later the call starts a refresh and is
@@ -436,16 +597,23 @@ example : answers (trace (Early.step ⟨16, 4, true⟩) Early.init earlyHist) =
     [.call ⟨.fresh 0 0, true, false⟩, .ok, .call ⟨.stored 0 0, false, true⟩, .call ⟨.stored 0 0, false, false⟩,
      .ok, .done .stored, .call ⟨.stored 7 1, false, false⟩] := by decide
 
-/-- … and that history satisfies the timeliness hypothesis with a refresh really in flight during a call -/
-example : ∀ e ∈ trace (Early.step ⟨16, 4, true⟩) Early.init earlyHist, Early.Timely ⟨16, 4, true⟩ e.1 e.2.1 := by
-  intro e he o d hop x hx
-  simp only [earlyHist, trace, Early.step, Early.call, Early.done, Early.init, List.mem_cons, List.not_mem_nil,
-    or_false] at he
-  rcases he with rfl | rfl | rfl | rfl | rfl | rfl | rfl <;> revert x hx <;> decide
-
-/-- without timeliness two refreshes do overlap (the second call comes after the first refresh's lock expired) -/
-example : (final (Early.step ⟨16, 4, true⟩) Early.init [.call .ok 0, .adv 5, .call .ok 0, .adv 4, .call .ok 0]).inflight.length = 2 := by
+/-- a recalculation that outlives its lock key (a call 4 ticks after it started: the lock key is gone) is NOT joined by
+a second one: the call is served from the store (before D44 was repaired: `inflight.length = 2`) -/
+example : (final (Early.step ⟨16, 4, true⟩) Early.init [.call .ok 0, .adv 5, .call .ok 0, .adv 4, .call .ok 0]).inflight.length = 1 := by
   decide
+
+/-- … and one that outlives the stored result is waited for: the result `(0,0)` is gone at 16, the calls at 17 and 18 find
+nothing, execute nothing and are parked on recalculation 1; it completes at 19 and they are handed `(19, 1)`; the next
+call is served that result. -/
+example : answers (trace (Early.step ⟨16, 4, true⟩) Early.init
+      [.call .ok 0, .adv 5, .call .ok 0, .adv 12, .call .ok 3, .adv 1, .call .listed 0, .adv 1, .done 0 .ok, .call .listed 0]) =
+    [.call ⟨.fresh 0 0, true, false⟩, .ok, .call ⟨.stored 0 0, false, true⟩, .ok, .call ⟨.joined 1, false, false⟩, .ok,
+     .call ⟨.joined 1, false, false⟩, .ok, .done .stored, .call ⟨.stored 19 1, false, false⟩] := by decide
+
+example : Early.joinedAnswer (final (Early.step ⟨16, 4, true⟩) Early.init
+      [.call .ok 0, .adv 5, .call .ok 0, .adv 12, .call .ok 3, .adv 1, .call .listed 0, .adv 1]) 0 .ok = some (.fresh 19 1) ∧
+    Early.joinedAnswer (final (Early.step ⟨16, 4, true⟩) Early.init
+      [.call .ok 0, .adv 5, .call .ok 0, .adv 12, .call .ok 3]) 0 .listed = some (.raised .listed) := by decide
 
 /-- soft, ttl 2 s, soft_ttl ½ s: fresh; served young; at exactly soft_ttl recomputed, the listed failure
 serves the stale value; an unlisted failure raises; after ttl a listed failure raises as well. -/
@@ -577,5 +745,23 @@ the call (mirrored). -/
 example : answers (trace (Hit.step ⟨16, 2, 1, false⟩) Hit.init [.call .ok 2, .call .ok 3, .adv 15, .call .ok 2, .call .listed 0]) =
     [.call ⟨.fresh 2 0, true, false⟩, .call ⟨.stored 2 0, true, true⟩, .ok, .call ⟨.stored 5 1, true, true⟩,
      .call ⟨.raised .listed, true, true⟩] := by decide
+
+/-! ### … with overlapping calls (ttl 2 s = 16 ticks, soft_ttl ½ s = 4 ticks) -/
+
+/-- failover: a result is stored at 0; at 14 call A enters the function, then call B (its own execution, ordinal 2); B's
+body raises a listed exception at 15 and falls back to `(0,0)` (aged 15); A's body raises at 17: `(0,0)` is gone, A raises.
+With the seeded change C14-10 (failover single-flight) B would never execute and be handed A's outcome. -/
+example : answers (trace (Overlap.failStep ⟨16⟩) Overlap.init
+      [.begin, .fin 0 .ok, .adv 14, .begin, .begin, .adv 1, .fin 1 .listed, .adv 2, .fin 0 .listed]) =
+    [.began 0, .answered (.fresh 0 0), .ok, .began 1, .began 2, .ok, .answered (.stored 0 0), .ok,
+     .answered (.raised .listed)] := by decide
+
+/-- soft: `(0,0)` stored; at 14 (stale) call A enters the function, at 15 call B too; B returns at 15 and stores `(15,2)`;
+A's body raises a listed exception at 17: A is answered with what is in the store NOW, `(15,2)` aged 2 — not with the
+`(0,0)` it read when it began, 17 ticks old (the seeded change C14-11 serves that one: the key "exists"). -/
+example : answers (trace (Overlap.softStep ⟨16, 4⟩) Overlap.init
+      [.begin, .fin 0 .ok, .adv 3, .begin, .adv 11, .begin, .adv 1, .begin, .fin 1 .ok, .adv 2, .fin 0 .listed, .begin]) =
+    [.began 0, .answered (.fresh 0 0), .ok, .served (.stored 0 0), .ok, .began 1, .ok, .began 2, .answered (.fresh 15 2), .ok,
+     .answered (.stored 15 2), .served (.stored 15 2)] := by decide
 
 end CashewsVerif.Props.C14
